@@ -1006,3 +1006,17 @@ def unroll_literal_loops(mod: Module, func: ast.AST) -> ast.AST:
         for ch in ast.iter_child_nodes(n):
             mod.parent[id(ch)] = n
     return out
+
+
+def resolve_method(mod: Module, cls: str, name: str) -> Optional[str]:
+    """qualified name of the function that `cls().name` resolves to inside `mod` (the class itself or the nearest base class defined in the module)"""
+    seen, todo = set(), [cls]
+    while todo:
+        c = todo.pop(0)
+        if c in seen or c not in mod.classes:
+            continue
+        seen.add(c)
+        if f"{c}.{name}" in mod.functions:
+            return f"{c}.{name}"
+        todo += [b.id for b in mod.classes[c].bases if isinstance(b, ast.Name)]
+    return None
